@@ -21,6 +21,11 @@ fn iv(i: i128) -> Value { Value::Integer((i as i64).into()) }
 fn check(ctx: &mut Ctx, kind: &str, what: &str, bytes: &[u8]) {
     ctx.emit.line("spec", &format!("spec:{kind}:{what}"), format!("cddl.{kind} {}", hex_or_dash(bytes)), "true".into(),
         serde_json::json!({"kind": kind, "what": what, "msg_hex": hex::encode(bytes)}));
+    // the same emitted bytes against the generic schema validator (Model/Schema.lean `conf`, theorem C18_wire_conforms)
+    let schema = match kind { "deviceEngagement" => "DeviceEngagement", "deviceRequest" => "DeviceRequest", "deviceResponse" => "DeviceResponse", "mso" => "Mso",
+        "sessionData" => "SessionData", "sessionEstablishment" => "SessionEstablishment", _ => return };
+    ctx.emit.line("spec", &format!("spec:{kind}:{what}:schema"), format!("spec.schema.conf {schema} {}", hex_or_dash(bytes)), "true".into(),
+        serde_json::json!({"kind": kind, "what": what, "validator": "schema", "msg_hex": format!("{}-schema", hex::encode(bytes))}));
 }
 
 pub fn retrieval_configs(ctx: &mut Ctx) -> Vec<(String, Option<NonEmptyVec<DeviceRetrievalMethod>>, Option<ServerRetrievalMethods>)> {
